@@ -68,7 +68,8 @@ def assign_kinds(deps, variant):
             kinds[n] = leaf_cycle[li % 4]
             li += 1
         elif all(kinds[d] in ("constant", "enum") for d in ds):
-            kinds[n] = "constant" if n % 2 else "struct"
+            # a constant, an enum whose enumerator values use the dependencies, or a struct sized by them
+            kinds[n] = ("constant", "enum", "struct")[n % 3]
         elif all(kinds[d] in ("struct", "union", "enum", "typedef") for d in ds) and n % 3 == 0:
             kinds[n] = "union"
         elif all(kinds[d] in ("struct", "union", "enum", "typedef") for d in ds) and n % 3 == 1 and len(ds) == 1:
@@ -85,7 +86,7 @@ def const_expr(n, ds, kinds, consts):
     (missing ones count as 0 - used only when rendering the text)."""
     ops = []
     for d in ds:
-        ops.append(("C%d" % d, consts.get(d, 0)) if kinds[d] == "constant" else ("N%d_A" % d, d))
+        ops.append(("C%d" % d, consts.get(d, 0)) if kinds[d] == "constant" else ("N%d_A" % d, consts.get(d, d)))
     form = n % 5
     if not ops:
         return str(n), n
@@ -128,8 +129,13 @@ def isar_elements(deps, kinds):
         if k == "constant":
             out[n] = '<constant name="%s" value="%s"/>' % (nm(n), xml_escape(const_expr(n, ds, kinds, {})[0]))
         elif k == "enum":
-            out[n] = ('<enum name="%s"><enum-member name="%s_A" value="%d"/><enum-member name="%s_B" value="%d"/></enum>'
-                      % (nm(n), nm(n), n, nm(n), n + 10))
+            # a dependent enum's enumerators are expressions over its dependencies (an enumerator that refers to an
+            # earlier enumerator of the SAME enum is avoided: isar values reach the Python module as raw text, where
+            # the class body cannot see them - the known finding isar-raw-expression-text's family)
+            a_text = xml_escape(const_expr(n, ds, kinds, {})[0]) if ds else str(n)
+            b_text = ("(%s) + 10" % a_text) if ds else str(n + 10)
+            out[n] = ('<enum name="%s"><enum-member name="%s_A" value="%s"/><enum-member name="%s_B" value="%s"/></enum>'
+                      % (nm(n), nm(n), a_text, nm(n), b_text))
         elif k == "typedef":
             if ds:
                 out[n] = '<typedef name="%s" type="%s"/>' % (nm(n), nm(ds[0]))
@@ -167,7 +173,9 @@ def schema_env_for_graph(deps, kinds):
             consts[n] = const_expr(n, ds, kinds, consts)[1]
             continue
         if k == "enum":
-            defs.append(S.EnumDef([n, n + 10]))
+            a = const_expr(n, ds, kinds, consts)[1] if ds else n
+            consts[n] = a
+            defs.append(S.EnumDef([a, a + 10]))
         elif k == "typedef":
             defs.append(S.TypedefDef(S.Ref(idx[ds[0]]) if ds else S.Int(2)))
         elif k == "union":
